@@ -108,6 +108,10 @@ class ISet:
     def minus(self, other):
         return self.intersect(other.complement())
 
+    def negate(self):
+        """{-x : x in self}"""
+        return ISet([(-hi, hc, -lo, lc) for lo, lc, hi, hc in self.p])
+
     def is_empty(self):
         return not self.p
 
@@ -165,4 +169,6 @@ if __name__ == '__main__':
     assert g.contains(0) and not g.contains(2) and g.contains(2.5)
     assert ISet.parse('[0,1)').complement() == ISet.cmp('<', 0).union(ISet.cmp('>=', 1))
     assert ISet.parse('!=0').complement() == ISet.point(0)
+    assert ISet.parse('(0,inf)').negate() == ISet.parse('(-inf,0)')
+    assert ISet.parse('[1,2)').negate() == ISet.parse('(-2,-1]')
     print('ok')
